@@ -67,7 +67,10 @@ def run(ctx):
                 "(2) overlapping writers of one process (cv/interleave.py): 2-3 writers (same or different data, "
                 "declared size / integrity or not, keyed or by address, sync and async handles) are kept open by the "
                 "driver and advanced one step at a time in a random merge of their steps; after EVERY step the content "
-                "area is walked and re-hashed from outside while the other writers are still in flight")
+                "area is walked and re-hashed from outside while the other writers are still in flight. (3) async writers "
+                "on which a write future was dropped while pending (1-2 cancelled writes of 1 byte .. 3 MiB before "
+                "random chunks) and that are then written to and committed / dropped: the content area is walked, the "
+                "returned address must read back, content stored before must survive")
     ctx.assumptions = ["process kill only (no power loss; the library never fsyncs)",
                        "memory-mapped stores are not system calls; their partial states live only in the private temp file"]
     ctx.exhaustive = True
@@ -189,6 +192,8 @@ def run(ctx):
     # ---------------- (2) overlapping writers, content area inspected between any two steps
     interleave.run(ctx, drv.QUICK_MODES if ctx.quick else drv.ALL_MODES, 1500 if ctx.quick else 20000,
                    content_monitor=True, results_monitor=False, big=not ctx.quick)
+    # ---------------- (3) async writers used after a cancelled write
+    interleave.cancelled_writes(ctx, drv.QUICK_MODES if ctx.quick else drv.ALL_MODES, 300 if ctx.quick else 5000)
     ctx.extra["distinct_on_disk_states_after_kill"] = len(states)
     ctx.extra["scenarios"] = [f"{s.name}@{s.mode}" for s in scs]
     ctx.extra["kill_and_torn_points"] = total_points
